@@ -21,6 +21,52 @@ import numpy as np
 from tjverif import gen, mcmc, monitors as M, oracle
 
 
+def check_plot_offsets(ctx, rng, TheJoker, prior, data, samples, dspec, ns, du, desc, cls):
+    """plot_rv_curves(apply_mean_v0_offset=True) must subtract mean(dv0_k) from exactly the epochs of the survey that the
+    likelihood ties to dv0_k (list: the k-th further source; dict: the k-th key in sorted order), nothing from the
+    reference survey's. Read back from the artists the call puts on the axes."""
+    import matplotlib
+    matplotlib.use("Agg")
+    import matplotlib.pyplot as plt
+    from thejoker.plot import plot_rv_curves
+    post = TheJoker(prior, rng=np.random.default_rng(11)).rejection_sample(data, samples, in_memory=True, max_posterior_samples=4)
+    fig, ax = plt.subplots()
+    try:
+        plot_rv_curves(post, data=data, ax=ax, rv_unit=gen.U(du), apply_mean_v0_offset=True, max_t_grid=64)
+        conts = [c for c in ax.containers if type(c).__name__ == "ErrorbarContainer"]
+        if not conts:
+            ctx.count("plot_without_errorbar_container")
+            return
+        x = np.asarray(conts[0].lines[0].get_xdata(), dtype=float)
+        y = np.asarray(conts[0].lines[0].get_ydata(), dtype=float)
+    finally:
+        plt.close(fig)
+    t, yv, sg, lab, t_ref = gen.merged(dspec)
+    if dspec["form"] == "dict":
+        srt = sorted(dspec["keys"])
+        col_of = [srt.index(k) for k in dspec["keys"]]          # survey j -> offset column (0 = reference)
+    else:
+        col_of = list(range(ns))
+    want = yv.copy()
+    for j in range(ns):
+        if col_of[j] > 0:
+            off = post["dv0_%d" % col_of[j]].to_value(gen.U(du))
+            want[lab == j] -= np.mean(off)
+    ctx.evaluations += 1
+    ctx.count("plot_offset_calls_checked")
+    ctx.distinct.add(repr(("plot-offsets",) + cls))
+    if len(x) != len(t) or np.max(np.abs(np.sort(x) - t)) > 1e-6:
+        ctx.violation("plot-not-the-union", "plot_rv_curves drew %d data points, the merged data have %d" % (len(x), len(t)), desc)
+        return
+    o = np.argsort(x, kind="stable")
+    scale = np.max(np.abs(yv)) + 1e-9
+    if np.max(np.abs(y[o] - want)) > 1e-9 * scale:
+        removed = (yv - y[o])
+        ctx.violation("plot-offset-on-wrong-survey", "plot_rv_curves removed %s from the epochs of surveys %s; the offsets tied to those "
+                      "surveys are %s" % (np.round(removed, 6).tolist()[:12], lab.tolist()[:12],
+                                          np.round(yv - want, 6).tolist()[:12]), desc)
+
+
 def run(ctx):
     M.install_validate_prepare_data()
     from thejoker import TheJoker
@@ -173,6 +219,9 @@ def run(ctx):
                                       "evaluated by the same TheJoker: values are not those of the new labelling (row %s: %.10g vs "
                                       "%.10g; %d of %d equal the first call's)" % (worst2 + (int(np.sum(second == first)), len(second))),
                                       dict(desc, moved_from_survey=k))
+            # ---- the plotting helper that removes each survey's mean offset from its own epochs (anchored in plot.py)
+            if chrono and ns <= 4 and i % 4 == 2 and not ties:
+                check_plot_offsets(ctx, rng, TheJoker, prior, data, samples, dspec, ns, du, desc, cls)
             if i % 60 == 0:
                 ctx.sample(dict(desc, ll_head=ll[:3]))
         except Exception as e:
